@@ -510,6 +510,13 @@ class BeautifulSoup(Tag):
         # Store the contents as a Unicode string.
         d["contents"] = []
         d["markup"] = self.decode()
+        # The tree is rebuilt from the markup on unpickling; the links
+        # from this object into the tree (set when something was
+        # inserted at its start, or when it is a copy) must not be
+        # pickled with it: default pickling would walk the whole tree.
+        for link in ("next_element", "next_sibling", "previous_element", "previous_sibling"):
+            if link in d:
+                d[link] = None
 
         # If _most_recent_element is present, it's a Tag object left
         # over from initial parse. It might not be picklable and we
